@@ -120,7 +120,10 @@ type c03Loaded struct {
 	err error
 }
 
-type c03Holder struct{ st *c03State }
+type c03Holder struct {
+	st     *c03State
+	shared *starlark.Program // non-nil: initialise this compiled program instead of compiling the source
+}
 
 // the environment of one process
 type c03Env struct {
@@ -587,7 +590,12 @@ func (e *c03Env) exec(p *c03Prog, th *starlark.Thread, h *c03Holder, full bool) 
 				err = fmt.Errorf("GO PANIC: %v", r)
 			}
 		}()
-		g, err = starlark.ExecFileOptions(p.Opts.fileOptions(), th, "prog.star", p.Src, e.predec)
+		if sp := h.shared; sp != nil {
+			// one compiled program shared by several goroutines (the host compiles once and initialises many times)
+			g, err = sp.Init(th, e.predec)
+		} else {
+			g, err = starlark.ExecFileOptions(p.Opts.fileOptions(), th, "prog.star", p.Src, e.predec)
+		}
 	}()
 	close(done)
 	obs.Timeout = timedOut.Load()
@@ -867,14 +875,30 @@ func init() {
 				start := make(chan struct{})
 				var g sync.WaitGroup
 				res := make([]c03Obs, *gor)
+				// even goroutines initialise ONE shared compiled program, odd ones compile their own copy
+				var shared *starlark.Program
+				func() {
+					defer func() { recover() }()
+					_, sp, err := starlark.SourceProgramOptions(p.Opts.fileOptions(), "prog.star", p.Src, e.predec.Has)
+					if err == nil {
+						shared = sp
+					} else if os.Getenv("C03_TIMING") != "" {
+						fmt.Fprintf(os.Stderr, "c03: program %d is not shared: %v\n", p.ID, err)
+					}
+				}()
 				for k := 0; k < *gor; k++ {
 					g.Add(1)
 					go func(k int) {
 						defer g.Done()
 						runtime.LockOSThread()
 						defer runtime.UnlockOSThread()
+						h := &c03Holder{}
+						if k%2 == 0 {
+							h.shared = shared
+						}
+						th := e.newThread(h)
 						<-start
-						res[k] = e.execFresh(p, false)
+						res[k] = e.exec(p, th, h, false)
 					}(k)
 				}
 				close(start)
